@@ -1,7 +1,863 @@
 package main
 
-// replayModel turns a solver model of a failed obligation into a Go test against the real code (integer-level
-// functions only). Returns the transcript and whether the failure was confirmed.
+import (
+	"context"
+	"encoding/json"
+	"fmt"
+	"go/types"
+	"os"
+	"os/exec"
+	"path/filepath"
+	"regexp"
+	"strconv"
+	"strings"
+	"time"
+)
+
+// ---------------------------------------------------------------------------------------------
+// Replay of solver models against the real code
+// ---------------------------------------------------------------------------------------------
+//
+// When a solver returns `sat` for a failed obligation of a package-level function whose parameters are ints, bools,
+// float64s, []int and []tensor.Range, the model's input values are turned into an in-package Go test (injected with
+// -overlay, nothing is written to the repository), the function is called on them, and
+//   - a panic is a confirmed failure (every function under contract is total on its precondition), and
+//   - for a failed postcondition the observed results are put back into the postcondition, which is then decided on
+//     those concrete values by the solver: `unsat` means the real code returned values the contract forbids.
+// Anything else leaves the violation unconfirmed ("no-failing-input-found").
+
+const replayMaxLen = 8
+
+func contextBackground() context.Context { return context.Background() }
+
+func realLitF(x float64) string {
+	s := strconv.FormatFloat(x, 'f', -1, 64)
+	if !strings.Contains(s, ".") {
+		s += ".0"
+	}
+	if strings.HasPrefix(s, "-") {
+		return "(- " + s[1:] + ")"
+	}
+	return s
+}
+
+type replayParam struct {
+	name  string
+	typ   types.Type
+	kind  string // int | bool | float | ints | ranges
+	goLit string
+	val   Val // concrete value for the re-check
+}
+
+func replayKind(t types.Type) string {
+	switch u := types.Unalias(t).Underlying().(type) {
+	case *types.Basic:
+		switch {
+		case u.Info()&types.IsInteger != 0:
+			return "int"
+		case u.Info()&types.IsBoolean != 0:
+			return "bool"
+		case u.Info()&types.IsFloat != 0:
+			return "float"
+		}
+	case *types.Slice:
+		switch e := types.Unalias(u.Elem()).Underlying().(type) {
+		case *types.Basic:
+			if e.Info()&types.IsInteger != 0 {
+				return "ints"
+			}
+		case *types.Struct:
+			if n, ok := types.Unalias(u.Elem()).(*types.Named); ok && n.Obj().Name() == "Range" && e.NumFields() == 2 {
+				return "ranges"
+			}
+		}
+	case *types.Interface:
+		if n, ok := types.Unalias(t).(*types.Named); ok && n.Obj().Name() == "error" && n.Obj().Pkg() == nil {
+			return "error"
+		}
+	}
+	return ""
+}
+
+// parseModel reads the `((term value) (term value) ...)` answer of get-value.
+func parseModel(out string) map[string]string {
+	m := map[string]string{}
+	i := strings.Index(out, "((")
+	if i < 0 {
+		return m
+	}
+	s := out[i+1:]
+	// top-level pairs
+	depth := 0
+	start := -1
+	for k := 0; k < len(s); k++ {
+		switch s[k] {
+		case '(':
+			if depth == 0 {
+				start = k
+			}
+			depth++
+		case ')':
+			depth--
+			if depth == 0 && start >= 0 {
+				pair := s[start+1 : k]
+				// split the pair into term and value: the term is the first balanced s-expression
+				t, v := splitFirstSexp(strings.TrimSpace(pair))
+				if t != "" {
+					m[t] = strings.TrimSpace(v)
+				}
+				start = -1
+			}
+			if depth < 0 {
+				return m
+			}
+		}
+	}
+	return m
+}
+
+func splitFirstSexp(s string) (string, string) {
+	if s == "" {
+		return "", ""
+	}
+	if s[0] != '(' {
+		i := strings.IndexAny(s, " \n\t")
+		if i < 0 {
+			return s, ""
+		}
+		return s[:i], s[i+1:]
+	}
+	depth := 0
+	for k := 0; k < len(s); k++ {
+		switch s[k] {
+		case '(':
+			depth++
+		case ')':
+			depth--
+			if depth == 0 {
+				return s[:k+1], s[k+1:]
+			}
+		}
+	}
+	return "", ""
+}
+
+var wsRe = regexp.MustCompile(`\s+`)
+
+func normTerm(t string) string { return wsRe.ReplaceAllString(strings.TrimSpace(t), " ") }
+
+func smtInt(v string) (int64, bool) {
+	v = normTerm(v)
+	if strings.HasPrefix(v, "(- ") && strings.HasSuffix(v, ")") {
+		n, ok := smtInt(v[3 : len(v)-1])
+		return -n, ok
+	}
+	n, err := strconv.ParseInt(v, 10, 64)
+	return n, err == nil
+}
+
+func smtReal(v string) (float64, bool) {
+	v = normTerm(v)
+	if strings.HasPrefix(v, "(- ") && strings.HasSuffix(v, ")") {
+		x, ok := smtReal(v[3 : len(v)-1])
+		return -x, ok
+	}
+	if strings.HasPrefix(v, "(/ ") && strings.HasSuffix(v, ")") {
+		fs := strings.Fields(v[3 : len(v)-1])
+		if len(fs) == 2 {
+			a, ok1 := smtReal(fs[0])
+			b, ok2 := smtReal(fs[1])
+			if ok1 && ok2 && b != 0 {
+				return a / b, true
+			}
+		}
+		return 0, false
+	}
+	x, err := strconv.ParseFloat(v, 64)
+	return x, err == nil
+}
+
+// replayTerms: the extra terms a model query needs so that slice parameters can be rebuilt.
+func (o *Obligation) replayTerms() []string {
+	var ts []string
+	for _, k := range sortedKeys(o.Vars) {
+		if !strings.HasPrefix(k, "arr(") {
+			continue
+		}
+		name := strings.TrimSuffix(strings.TrimPrefix(k, "arr("), ")")
+		arr, off, es := o.Vars[k], o.Vars["off("+name+")"], o.Vars["elem("+name+")"]
+		if arr == "" || off == "" {
+			continue
+		}
+		for i := 0; i < replayMaxLen; i++ {
+			el := sx("select", arr, add(off, strconv.Itoa(i)))
+			switch es {
+			case "Int":
+				ts = append(ts, el)
+			case "Range":
+				ts = append(ts, sx("From", el), sx("To", el))
+			}
+		}
+	}
+	return ts
+}
+
 func replayModel(a *AggOutcome, repo string) (string, bool) {
-	return "", false
+	o := a.Witness
+	if o == nil || o.run == nil {
+		return "", false
+	}
+	r := o.run
+	u := r.unit
+	if u.Lit != nil || u.Recv != nil || u.Body == nil || u.Sig == nil || u.Pkg == nil {
+		return "", false
+	}
+	model := map[string]string{}
+	for t, v := range parseModel(a.Model) {
+		model[normTerm(t)] = v
+	}
+	get := func(term string) (string, bool) {
+		v, ok := model[normTerm(term)]
+		return v, ok
+	}
+	qual := func(p *types.Package) string {
+		if p == u.Pkg.Types {
+			return ""
+		}
+		return p.Name()
+	}
+	imports := map[string]string{}
+	var params []replayParam
+	for i := 0; i < u.Sig.Params().Len(); i++ {
+		pv := u.Sig.Params().At(i)
+		rp := replayParam{name: pv.Name(), typ: pv.Type(), kind: replayKind(pv.Type())}
+		tstr := types.TypeString(pv.Type(), qual)
+		switch rp.kind {
+		case "int":
+			v, ok := get(o.Vars[rp.name])
+			n, ok2 := smtInt(v)
+			if !ok || !ok2 {
+				return "", false
+			}
+			rp.goLit = fmt.Sprintf("%s(%d)", tstr, n)
+			rp.val = Val{K: KInt, T: intLit(n), Go: pv.Type()}
+		case "bool":
+			v, ok := get(o.Vars[rp.name])
+			if !ok || (v != "true" && v != "false") {
+				return "", false
+			}
+			rp.goLit = v
+			rp.val = Val{K: KBool, T: v, Go: pv.Type()}
+		case "float":
+			v, ok := get(o.Vars[rp.name])
+			x, ok2 := smtReal(v)
+			if !ok || !ok2 {
+				return "", false
+			}
+			rp.goLit = fmt.Sprintf("%s(%s)", tstr, strconv.FormatFloat(x, 'g', -1, 64))
+			rp.val = Val{K: KReal, T: normTerm(v), Go: pv.Type()}
+		case "ints", "ranges":
+			lv, ok := get(o.Vars["len("+rp.name+")"])
+			n, ok2 := smtInt(lv)
+			if !ok || !ok2 || n < 0 || n > replayMaxLen {
+				return "", false
+			}
+			arr, off := o.Vars["arr("+rp.name+")"], o.Vars["off("+rp.name+")"]
+			sl := types.Unalias(pv.Type()).Underlying().(*types.Slice)
+			if nm, ok := types.Unalias(sl.Elem()).(*types.Named); ok && nm.Obj().Pkg() != nil && nm.Obj().Pkg() != u.Pkg.Types {
+				imports[nm.Obj().Pkg().Path()] = nm.Obj().Pkg().Name()
+			}
+			var lits []string
+			es := "Int"
+			arrTerm := "((as const (Array Int Int)) 0)"
+			if rp.kind == "ranges" {
+				es = "Range"
+				arrTerm = "((as const (Array Int Range)) (mkRange 0 0))"
+			}
+			for k := int64(0); k < n; k++ {
+				el := sx("select", arr, add(off, strconv.FormatInt(k, 10)))
+				if rp.kind == "ints" {
+					v, ok := get(el)
+					x, ok2 := smtInt(v)
+					if !ok || !ok2 {
+						return "", false
+					}
+					lits = append(lits, strconv.FormatInt(x, 10))
+					arrTerm = sx("store", arrTerm, intLit(k), intLit(x))
+				} else {
+					fv, ok := get(sx("From", el))
+					tv, ok2 := get(sx("To", el))
+					f, ok3 := smtInt(fv)
+					t, ok4 := smtInt(tv)
+					if !ok || !ok2 || !ok3 || !ok4 {
+						return "", false
+					}
+					lits = append(lits, fmt.Sprintf("{From: %d, To: %d}", f, t))
+					arrTerm = sx("store", arrTerm, intLit(k), sx("mkRange", intLit(f), intLit(t)))
+				}
+			}
+			rp.goLit = fmt.Sprintf("%s{%s}", tstr, strings.Join(lits, ", "))
+			rp.val = Val{K: KSlice, S: &SliceVal{Arr: arrTerm, Off: "0", Len: intLit(n), Elem: sl.Elem(), ESrt: es, Own: OwnLib}, Go: pv.Type()}
+		default:
+			return "", false
+		}
+		params = append(params, rp)
+	}
+	// results
+	var resKinds []string
+	for i := 0; i < u.Sig.Results().Len(); i++ {
+		k := replayKind(u.Sig.Results().At(i).Type())
+		if k == "" {
+			return "", false
+		}
+		resKinds = append(resKinds, k)
+	}
+	fd := u.Name[strings.LastIndex(u.Name, ".")+1:]
+	var src strings.Builder
+	fmt.Fprintf(&src, "package %s\n\nimport (\n\t\"fmt\"\n\t\"testing\"\n", u.Pkg.Types.Name())
+	for p, n := range imports {
+		fmt.Fprintf(&src, "\t%s %q\n", n, p)
+	}
+	src.WriteString(")\n\nfunc TestQvReplay(t *testing.T) {\n\tdefer func() {\n\t\tif r := recover(); r != nil {\n\t\t\tfmt.Printf(\"QVREPLAY panic %v\\n\", r)\n\t\t}\n\t}()\n")
+	var args []string
+	for i, p := range params {
+		fmt.Fprintf(&src, "\ta%d := %s\n", i, p.goLit)
+		args = append(args, fmt.Sprintf("a%d", i))
+	}
+	var rs []string
+	for i := range resKinds {
+		rs = append(rs, fmt.Sprintf("r%d", i))
+	}
+	call := fmt.Sprintf("%s(%s)", fd, strings.Join(args, ", "))
+	if len(rs) > 0 {
+		fmt.Fprintf(&src, "\t%s := %s\n", strings.Join(rs, ", "), call)
+	} else {
+		fmt.Fprintf(&src, "\t%s\n", call)
+	}
+	for i, k := range resKinds {
+		switch k {
+		case "error":
+			fmt.Fprintf(&src, "\tfmt.Printf(\"QVREPLAY r%d error %%t\\n\", r%d == nil)\n", i, i)
+		case "ints":
+			fmt.Fprintf(&src, "\tfmt.Printf(\"QVREPLAY r%d ints %%d\", len(r%d))\n\tfor _, x := range r%d {\n\t\tfmt.Printf(\" %%d\", x)\n\t}\n\tfmt.Println()\n", i, i, i)
+		case "ranges":
+			fmt.Fprintf(&src, "\tfmt.Printf(\"QVREPLAY r%d ranges %%d\", len(r%d))\n\tfor _, x := range r%d {\n\t\tfmt.Printf(\" %%d:%%d\", x.From, x.To)\n\t}\n\tfmt.Println()\n", i, i, i)
+		case "float":
+			fmt.Fprintf(&src, "\tfmt.Printf(\"QVREPLAY r%d float %%v\\n\", r%d)\n", i, i)
+		default:
+			fmt.Fprintf(&src, "\tfmt.Printf(\"QVREPLAY r%d %s %%v\\n\", r%d)\n", i, k, i)
+		}
+	}
+	src.WriteString("\tfmt.Println(\"QVREPLAY returned\")\n}\n")
+
+	// run it: in-package test through an overlay
+	if len(u.Pkg.GoFiles) == 0 {
+		return "", false
+	}
+	pkgDir := filepath.Dir(u.Pkg.GoFiles[0])
+	tmp, err := os.MkdirTemp("", "qvreplay")
+	if err != nil {
+		return "", false
+	}
+	defer os.RemoveAll(tmp)
+	testSrc := filepath.Join(tmp, "qv_replay_test.go")
+	os.WriteFile(testSrc, []byte(src.String()), 0o644)
+	ov, _ := json.Marshal(map[string]any{"Replace": map[string]string{filepath.Join(pkgDir, "qv_replay_test.go"): testSrc}})
+	ovFile := filepath.Join(tmp, "overlay.json")
+	os.WriteFile(ovFile, ov, 0o644)
+	cmd := exec.Command("go", "test", "-overlay", ovFile, "-v", "-vet=off", "-count=1", "-timeout", "60s", "-run", "^TestQvReplay$", ".")
+	cmd.Dir = pkgDir
+	cmd.Env = append(os.Environ(), "GOFLAGS=-mod=mod", "GOPROXY=off", "GOSUMDB=off", "GOTOOLCHAIN=local")
+	t0 := time.Now()
+	outB, _ := cmd.CombinedOutput()
+	out := string(outB)
+	var tr strings.Builder
+	fmt.Fprintf(&tr, "in-package test (go test -overlay, %.1fs) calling the real %s on the model's inputs:\n\n%s\n--- output ---\n", time.Since(t0).Seconds(), u.Name, src.String())
+	var lines []string
+	for _, l := range strings.Split(out, "\n") {
+		if strings.HasPrefix(l, "QVREPLAY") {
+			lines = append(lines, l)
+			tr.WriteString(l + "\n")
+		}
+	}
+	if len(lines) == 0 {
+		tr.WriteString("(the replay produced no result)\n" + out)
+		return tr.String(), false
+	}
+	for _, l := range lines {
+		if strings.HasPrefix(l, "QVREPLAY panic") {
+			tr.WriteString("\nCONFIRMED: the real code panics on an input that satisfies the precondition\n")
+			return tr.String(), true
+		}
+	}
+	if o.Kind != "post" {
+		tr.WriteString("\nnot confirmed: the call returned normally and the failed obligation is not a postcondition\n")
+		return tr.String(), false
+	}
+	idx, err := strconv.Atoi(o.Site)
+	if err != nil || idx < 0 || idx >= len(u.Ensures) {
+		return tr.String(), false
+	}
+	// concrete re-check of the failed postcondition on the observed results
+	ok := func() (confirmed bool) {
+		defer func() {
+			if x := recover(); x != nil {
+				fmt.Fprintf(&tr, "\nnot confirmed: the postcondition could not be evaluated on concrete values (%v)\n", x)
+				confirmed = false
+			}
+		}()
+		r2 := newUnitRun(r.prog, u)
+		st := &State{u: r2, vars: map[types.Object]Val{}, names: map[string]types.Object{}, arrs: map[*Obj]string{}, heap: map[string]string{}, frozen: map[*Obj]bool{}, ghost: map[string]Val{}}
+		bound := map[string]Val{}
+		for i, p := range params {
+			pv := u.Sig.Params().At(i)
+			st.bind(pv, p.val)
+			bound[p.name] = p.val
+		}
+		r2.entry = st.clone()
+		for i, k := range resKinds {
+			var line string
+			for _, l := range lines {
+				if strings.HasPrefix(l, fmt.Sprintf("QVREPLAY r%d ", i)) {
+					line = strings.TrimPrefix(l, fmt.Sprintf("QVREPLAY r%d %s ", i, k))
+				}
+			}
+			rv := u.Sig.Results().At(i)
+			var v Val
+			switch k {
+			case "int":
+				n, _ := strconv.ParseInt(strings.TrimSpace(line), 10, 64)
+				v = Val{K: KInt, T: intLit(n), Go: rv.Type()}
+			case "bool":
+				v = Val{K: KBool, T: strings.TrimSpace(line), Go: rv.Type()}
+			case "error":
+				v = Val{K: KErr, T: strings.TrimSpace(line), Go: rv.Type()}
+			case "float":
+				x, err := strconv.ParseFloat(strings.TrimSpace(line), 64)
+				if err != nil {
+					panic("non-finite result")
+				}
+				v = Val{K: KReal, T: realLitF(x), Go: rv.Type()}
+			case "ints", "ranges":
+				fs := strings.Fields(line)
+				if len(fs) == 0 {
+					panic("no slice result")
+				}
+				n, _ := strconv.Atoi(fs[0])
+				es, arrTerm := "Int", "((as const (Array Int Int)) 0)"
+				if k == "ranges" {
+					es, arrTerm = "Range", "((as const (Array Int Range)) (mkRange 0 0))"
+				}
+				for j := 0; j < n && j+1 < len(fs); j++ {
+					if k == "ints" {
+						x, _ := strconv.ParseInt(fs[j+1], 10, 64)
+						arrTerm = sx("store", arrTerm, intLit(int64(j)), intLit(x))
+					} else {
+						ft := strings.SplitN(fs[j+1], ":", 2)
+						f, _ := strconv.ParseInt(ft[0], 10, 64)
+						t, _ := strconv.ParseInt(ft[1], 10, 64)
+						arrTerm = sx("store", arrTerm, intLit(int64(j)), sx("mkRange", intLit(f), intLit(t)))
+					}
+				}
+				sl := types.Unalias(rv.Type()).Underlying().(*types.Slice)
+				v = Val{K: KSlice, S: &SliceVal{Arr: arrTerm, Off: "0", Len: intLit(int64(n)), Elem: sl.Elem(), ESrt: es, Own: OwnLib}, Go: rv.Type()}
+			}
+			name := rv.Name()
+			if name == "" || name == "_" {
+				name = fmt.Sprintf("res%d", i)
+			}
+			bound[name] = v
+			bound[fmt.Sprintf("res%d", i)] = v
+			if i == 0 {
+				bound["res"] = v
+			}
+		}
+		env := &SpecEnv{run: r2, st: st, old: r2.entry, bound: bound}
+		c := u.Ensures[idx]
+		if len(c.Uses) > 0 {
+			r2.assumeNamed(st, c.Uses)
+		}
+		goal := r2.specBool(env, c, "replay of "+u.Name)
+		// facts /\ post unsatisfiable  <=>  the observed values violate the postcondition
+		o2 := &Obligation{Name: u.Name + ":replay", Unit: u.Name, Kind: "replay", Goal: not(goal), Facts: append([]string(nil), st.facts...), run: r2}
+		text := o2.smt(false)
+		f := filepath.Join(tmp, "recheck.smt2")
+		os.WriteFile(f, []byte(text), 0o644)
+		for _, b := range []string{"z3-new", "cvc5", "z3"} {
+			so, _ := runSolver(contextBackground(), b, nil, f, 20*time.Second)
+			switch firstLine(so) {
+			case "unsat":
+				fmt.Fprintf(&tr, "\nCONFIRMED: with these inputs and the results the real code returned, the postcondition\n    %s\nis false (decided on the concrete values by %s)\n", c.Text, b)
+				return true
+			case "sat":
+				fmt.Fprintf(&tr, "\nnot confirmed: the values the real code returned satisfy the postcondition (%s); the solver's model relies on an abstraction (a callee's contract, a loop invariant) rather than on this execution\n", b)
+				return false
+			}
+		}
+		tr.WriteString("\nnot confirmed: the concrete re-check of the postcondition was not decided\n")
+		return false
+	}()
+	return tr.String(), ok
+}
+
+// ---------------------------------------------------------------------------------------------
+// Small-input search for a replay input
+// ---------------------------------------------------------------------------------------------
+//
+// Most failed obligations of this code base carry quantifiers, so the solver answers `unknown` and there is no model to
+// replay. For the integer-level functions (same class as above) the real function is then run on every small input
+// (bounds below); on each input the function's preconditions and all of its postconditions are decided on the concrete
+// values by the solver (one incremental script). The first input that satisfies the preconditions and either panics or
+// violates a postcondition is the replay. This is a bounded search and is labelled so; it only ever runs for an
+// obligation that has already failed, and never decides a property by itself.
+
+type replayCase struct {
+	lits []string // Go literals
+	vals []Val
+}
+
+func replaySearch(a *AggOutcome, repo string) (string, bool) {
+	o := a.Witness
+	if o == nil || o.run == nil {
+		return "", false
+	}
+	r := o.run
+	u := r.unit
+	if u.Lit != nil || u.Recv != nil || u.Body == nil || u.Sig == nil || u.Pkg == nil || len(u.Ensures) == 0 || len(u.Pkg.GoFiles) == 0 {
+		return "", false
+	}
+	qual := func(p *types.Package) string {
+		if p == u.Pkg.Types {
+			return ""
+		}
+		return p.Name()
+	}
+	imports := map[string]string{}
+	np := u.Sig.Params().Len()
+	var kinds []string
+	for i := 0; i < np; i++ {
+		k := replayKind(u.Sig.Params().At(i).Type())
+		if k == "" || k == "error" || k == "float" {
+			return "", false
+		}
+		kinds = append(kinds, k)
+	}
+	var resKinds []string
+	for i := 0; i < u.Sig.Results().Len(); i++ {
+		k := replayKind(u.Sig.Results().At(i).Type())
+		if k == "" || k == "float" {
+			return "", false
+		}
+		resKinds = append(resKinds, k)
+	}
+	// candidate values per parameter
+	ints := []int64{-1, 0, 1, 2, 3}
+	maxLen := 2
+	if np <= 2 {
+		maxLen = 3
+	}
+	elemInts := []int64{0, 1, 2, 3}
+	if np >= 3 {
+		elemInts = []int64{0, 1, 2}
+	}
+	type cand struct {
+		lit string
+		val Val
+	}
+	var cands [][]cand
+	for i := 0; i < np; i++ {
+		pv := u.Sig.Params().At(i)
+		tstr := types.TypeString(pv.Type(), qual)
+		var cs []cand
+		switch kinds[i] {
+		case "int":
+			for _, n := range ints {
+				cs = append(cs, cand{fmt.Sprintf("%s(%d)", tstr, n), Val{K: KInt, T: intLit(n), Go: pv.Type()}})
+			}
+		case "bool":
+			for _, b := range []string{"false", "true"} {
+				cs = append(cs, cand{b, Val{K: KBool, T: b, Go: pv.Type()}})
+			}
+		case "ints", "ranges":
+			sl := types.Unalias(pv.Type()).Underlying().(*types.Slice)
+			if nm, ok := types.Unalias(sl.Elem()).(*types.Named); ok && nm.Obj().Pkg() != nil && nm.Obj().Pkg() != u.Pkg.Types {
+				imports[nm.Obj().Pkg().Path()] = nm.Obj().Pkg().Name()
+			}
+			type elem struct{ lit, term string }
+			var elems []elem
+			if kinds[i] == "ints" {
+				for _, n := range elemInts {
+					elems = append(elems, elem{strconv.FormatInt(n, 10), intLit(n)})
+				}
+			} else {
+				for _, ft := range [][2]int64{{0, 0}, {0, 1}, {0, 2}, {1, 2}, {1, 1}, {2, 1}, {0, 3}, {-1, 1}} {
+					elems = append(elems, elem{fmt.Sprintf("{From: %d, To: %d}", ft[0], ft[1]), sx("mkRange", intLit(ft[0]), intLit(ft[1]))})
+				}
+			}
+			es, zero := "Int", "((as const (Array Int Int)) 0)"
+			if kinds[i] == "ranges" {
+				es, zero = "Range", "((as const (Array Int Range)) (mkRange 0 0))"
+			}
+			var rec func(n int, lits []string, arr string)
+			rec = func(n int, lits []string, arr string) {
+				cs = append(cs, cand{fmt.Sprintf("%s{%s}", tstr, strings.Join(lits, ", ")),
+					Val{K: KSlice, S: &SliceVal{Arr: arr, Off: "0", Len: strconv.Itoa(n), Elem: sl.Elem(), ESrt: es, Own: OwnLib}, Go: pv.Type()}})
+				if n == maxLen {
+					return
+				}
+				for _, e := range elems {
+					rec(n+1, append(append([]string(nil), lits...), e.lit), sx("store", arr, strconv.Itoa(n), e.term))
+				}
+			}
+			rec(0, nil, zero)
+		}
+		cands = append(cands, cs)
+	}
+	const maxCases = 2500
+	total := 1
+	for _, cs := range cands {
+		total *= len(cs)
+		if total > 50*maxCases {
+			break
+		}
+	}
+	// enumerate (strided when the product is larger than the cap, so that every parameter still varies)
+	var cases []replayCase
+	stride := 1
+	if total > maxCases {
+		stride = total/maxCases + 1
+		if stride%2 == 0 {
+			stride++
+		}
+	}
+	for n := 0; n < total && len(cases) < maxCases; n += stride {
+		k := n
+		var c replayCase
+		for _, cs := range cands {
+			c.lits = append(c.lits, cs[k%len(cs)].lit)
+			c.vals = append(c.vals, cs[k%len(cs)].val)
+			k /= len(cs)
+		}
+		cases = append(cases, c)
+	}
+	fd := u.Name[strings.LastIndex(u.Name, ".")+1:]
+	var src strings.Builder
+	fmt.Fprintf(&src, "package %s\n\nimport (\n\t\"fmt\"\n\t\"testing\"\n", u.Pkg.Types.Name())
+	for p, n := range imports {
+		fmt.Fprintf(&src, "\t%s %q\n", n, p)
+	}
+	src.WriteString(")\n\n")
+	var args, rs, ptypes []string
+	for i := 0; i < np; i++ {
+		args = append(args, fmt.Sprintf("a%d", i))
+		ptypes = append(ptypes, fmt.Sprintf("a%d %s", i, types.TypeString(u.Sig.Params().At(i).Type(), qual)))
+	}
+	for i := range resKinds {
+		rs = append(rs, fmt.Sprintf("r%d", i))
+	}
+	fmt.Fprintf(&src, "func qvCase(n int, %s) {\n\tdefer func() {\n\t\tif r := recover(); r != nil {\n\t\t\tfmt.Printf(\"QVCASE %%d panic %%v\\n\", n, r)\n\t\t}\n\t}()\n", strings.Join(ptypes, ", "))
+	call := fmt.Sprintf("%s(%s)", fd, strings.Join(args, ", "))
+	if len(rs) > 0 {
+		fmt.Fprintf(&src, "\t%s := %s\n", strings.Join(rs, ", "), call)
+	} else {
+		fmt.Fprintf(&src, "\t%s\n", call)
+	}
+	src.WriteString("\tfmt.Printf(\"QVCASE %d ok\", n)\n")
+	for i, k := range resKinds {
+		switch k {
+		case "error":
+			fmt.Fprintf(&src, "\tfmt.Printf(\" | %%t\", r%d == nil)\n", i)
+		case "ints":
+			fmt.Fprintf(&src, "\tfmt.Printf(\" | %%d\", len(r%d))\n\tfor _, x := range r%d {\n\t\tfmt.Printf(\" %%d\", x)\n\t}\n", i, i)
+		case "ranges":
+			fmt.Fprintf(&src, "\tfmt.Printf(\" | %%d\", len(r%d))\n\tfor _, x := range r%d {\n\t\tfmt.Printf(\" %%d:%%d\", x.From, x.To)\n\t}\n", i, i)
+		default:
+			fmt.Fprintf(&src, "\tfmt.Printf(\" | %%v\", r%d)\n", i)
+		}
+	}
+	src.WriteString("\tfmt.Println()\n}\n\nfunc TestQvReplay(t *testing.T) {\n")
+	for n, c := range cases {
+		fmt.Fprintf(&src, "\tqvCase(%d, %s)\n", n, strings.Join(c.lits, ", "))
+	}
+	src.WriteString("}\n")
+	pkgDir := filepath.Dir(u.Pkg.GoFiles[0])
+	tmp, err := os.MkdirTemp("", "qvsearch")
+	if err != nil {
+		return "", false
+	}
+	defer os.RemoveAll(tmp)
+	testSrc := filepath.Join(tmp, "qv_replay_test.go")
+	os.WriteFile(testSrc, []byte(src.String()), 0o644)
+	ov, _ := json.Marshal(map[string]any{"Replace": map[string]string{filepath.Join(pkgDir, "qv_replay_test.go"): testSrc}})
+	ovFile := filepath.Join(tmp, "overlay.json")
+	os.WriteFile(ovFile, ov, 0o644)
+	cmd := exec.Command("go", "test", "-overlay", ovFile, "-v", "-vet=off", "-count=1", "-timeout", "120s", "-run", "^TestQvReplay$", ".")
+	cmd.Dir = pkgDir
+	cmd.Env = append(os.Environ(), "GOFLAGS=-mod=mod", "GOPROXY=off", "GOSUMDB=off", "GOTOOLCHAIN=local")
+	outB, _ := cmd.CombinedOutput()
+	observed := map[int]string{}
+	for _, l := range strings.Split(string(outB), "\n") {
+		if strings.HasPrefix(l, "QVCASE ") {
+			fs := strings.SplitN(l[7:], " ", 2)
+			if n, err := strconv.Atoi(fs[0]); err == nil && len(fs) == 2 {
+				observed[n] = fs[1]
+			}
+		}
+	}
+	var tr strings.Builder
+	fmt.Fprintf(&tr, "the solver gave no model; small-input search over the real %s (bounded: %d inputs; ints in %v, slices up to length %d): each input is run through the real code (in-package test via go test -overlay) and the function's preconditions and postconditions are decided on the concrete values\n", u.Name, len(cases), ints, maxLen)
+	if len(observed) == 0 {
+		tr.WriteString("(the search produced no result)\n" + string(outB))
+		return tr.String(), false
+	}
+	// one incremental script: per case  push; assert requires; check-sat; assert post_i; check-sat ...; pop
+	var found string
+	ok := func() (confirmed bool) {
+		defer func() {
+			if x := recover(); x != nil {
+				fmt.Fprintf(&tr, "not confirmed: the contract could not be evaluated on concrete values (%v)\n", x)
+				confirmed = false
+			}
+		}()
+		r2 := newUnitRun(r.prog, u)
+		type chk struct {
+			n      int
+			req    string
+			posts  []string
+			panics bool
+		}
+		var chks []chk
+		var mention strings.Builder
+		for n, c := range cases {
+			obs, ok := observed[n]
+			if !ok {
+				continue
+			}
+			st := &State{u: r2, vars: map[types.Object]Val{}, names: map[string]types.Object{}, arrs: map[*Obj]string{}, heap: map[string]string{}, frozen: map[*Obj]bool{}, ghost: map[string]Val{}}
+			bound := map[string]Val{}
+			for i := 0; i < np; i++ {
+				pv := u.Sig.Params().At(i)
+				st.bind(pv, c.vals[i])
+				bound[pv.Name()] = c.vals[i]
+			}
+			r2.entry = st.clone()
+			envR := &SpecEnv{run: r2, st: st, old: r2.entry, bound: bound}
+			var reqs []string
+			for _, rc := range u.Requires {
+				reqs = append(reqs, r2.specBool(envR, rc, "replay search"))
+			}
+			ck := chk{n: n, req: and(reqs...)}
+			if strings.HasPrefix(obs, "panic") {
+				ck.panics = true
+			} else {
+				parts := strings.Split(strings.TrimPrefix(obs, "ok"), " | ")
+				if len(parts) != len(resKinds)+1 {
+					continue
+				}
+				for i, k := range resKinds {
+					line := strings.TrimSpace(parts[i+1])
+					rv := u.Sig.Results().At(i)
+					var v Val
+					switch k {
+					case "int":
+						x, _ := strconv.ParseInt(line, 10, 64)
+						v = Val{K: KInt, T: intLit(x), Go: rv.Type()}
+					case "bool":
+						v = Val{K: KBool, T: line, Go: rv.Type()}
+					case "error":
+						v = Val{K: KErr, T: line, Go: rv.Type()}
+					case "ints", "ranges":
+						fs := strings.Fields(line)
+						cnt, _ := strconv.Atoi(fs[0])
+						es, arr := "Int", "((as const (Array Int Int)) 0)"
+						if k == "ranges" {
+							es, arr = "Range", "((as const (Array Int Range)) (mkRange 0 0))"
+						}
+						for j := 0; j < cnt && j+1 < len(fs); j++ {
+							if k == "ints" {
+								x, _ := strconv.ParseInt(fs[j+1], 10, 64)
+								arr = sx("store", arr, strconv.Itoa(j), intLit(x))
+							} else {
+								ft := strings.SplitN(fs[j+1], ":", 2)
+								f, _ := strconv.ParseInt(ft[0], 10, 64)
+								t, _ := strconv.ParseInt(ft[1], 10, 64)
+								arr = sx("store", arr, strconv.Itoa(j), sx("mkRange", intLit(f), intLit(t)))
+							}
+						}
+						sl := types.Unalias(rv.Type()).Underlying().(*types.Slice)
+						v = Val{K: KSlice, S: &SliceVal{Arr: arr, Off: "0", Len: strconv.Itoa(cnt), Elem: sl.Elem(), ESrt: es, Own: OwnLib}, Go: rv.Type()}
+					}
+					name := rv.Name()
+					if name == "" || name == "_" {
+						name = fmt.Sprintf("res%d", i)
+					}
+					bound[name] = v
+					bound[fmt.Sprintf("res%d", i)] = v
+					if i == 0 {
+						bound["res"] = v
+					}
+				}
+				envP := &SpecEnv{run: r2, st: st, old: r2.entry, bound: bound}
+				for _, pc := range u.Ensures {
+					if len(pc.Uses) > 0 || pc.Opt != "" {
+						ck.posts = append(ck.posts, "true") // clauses that need lemmas are not decided here
+						continue
+					}
+					ck.posts = append(ck.posts, r2.specBool(envP, pc, "replay search"))
+				}
+			}
+			mention.WriteString(ck.req)
+			for _, p := range ck.posts {
+				mention.WriteString(p)
+			}
+			chks = append(chks, ck)
+		}
+		var script strings.Builder
+		script.WriteString(r2.smtHeader(mention.String()))
+		for _, ck := range chks {
+			fmt.Fprintf(&script, "(push 1)\n(assert %s)\n(check-sat)\n", ck.req)
+			for _, p := range ck.posts {
+				fmt.Fprintf(&script, "(push 1)\n(assert %s)\n(check-sat)\n(pop 1)\n", p)
+			}
+			script.WriteString("(pop 1)\n")
+		}
+		f := filepath.Join(tmp, "search.smt2")
+		os.WriteFile(f, []byte(script.String()), 0o644)
+		so, _ := runSolver(contextBackground(), "z3-new", nil, f, 120*time.Second)
+		answers := strings.Fields(so)
+		k := 0
+		next := func() string {
+			if k < len(answers) {
+				k++
+				return answers[k-1]
+			}
+			return "unknown"
+		}
+		for _, ck := range chks {
+			req := next()
+			var bad []int
+			for i := range ck.posts {
+				if next() == "unsat" {
+					bad = append(bad, i)
+				}
+			}
+			if req != "sat" {
+				continue
+			}
+			c := cases[ck.n]
+			if ck.panics {
+				found = fmt.Sprintf("%s(%s)  ->  %s", fd, strings.Join(c.lits, ", "), observed[ck.n])
+				fmt.Fprintf(&tr, "\nCONFIRMED: the input satisfies the preconditions and the real code panics:\n    %s\n", found)
+				return true
+			}
+			if len(bad) > 0 {
+				found = fmt.Sprintf("%s(%s)  ->  %s", fd, strings.Join(c.lits, ", "), observed[ck.n])
+				fmt.Fprintf(&tr, "\nCONFIRMED: the input satisfies the preconditions and the values the real code returned violate the postcondition\n    %s\ninput and observed result (results in declaration order; an error is shown as 'true' when nil):\n    %s\n", u.Ensures[bad[0]].Text, found)
+				return true
+			}
+		}
+		fmt.Fprintf(&tr, "\nnot confirmed: none of the %d small inputs that satisfy the preconditions panics or violates a postcondition\n", len(chks))
+		return false
+	}()
+	return tr.String(), ok
 }
